@@ -1,20 +1,21 @@
 SPECIFICATION Spec
-CONSTANTS MaxPre = 2 MaxN = 4
-  PreAlphabet <- AlphaThorough
-  Accs <- AccsQuick
-  Posts <- PostsQuick
-  FlowKinds = {"bare", "ctx"}
-  Drivers = {"fill"}
+CONSTANTS MaxPre = 2 MaxN = 3
+  PreAlphabet <- AlphaVars
+  Accs <- AccsVars
+  Posts <- PostsVars
+  FlowKinds = {"ctx"}
+  Drivers = {"run", "fill", "persist", "split"}
   Places = {"alone"}
   StopFlag = "per_branch"
   CopyMode = "per_branch"
   AdapterHides = TRUE
   VarCopy = "per_value"
-  Bufs <- BufOne
+  Bufs <- BufTwo
 INVARIANT DriversAgree
 INVARIANT FillReaches
 INVARIANT StopSound
 INVARIANT ComputeOnce
 INVARIANT BufBound
-INVARIANT Emitted
+INVARIANT ComposeAsSequence
+INVARIANT AdaptersHide
 CHECK_DEADLOCK FALSE
